@@ -22,7 +22,7 @@ for pid in allp:
 na = [dict(property_id=p, reason=meta["not_applicable"].get(p, "check under construction in this round; see DESIGN.md section 5")) for p in allp if p not in props or p not in meta["checks"]]
 man = dict(version=1, setup_cmd="python3 tools/setup.py",
            hooks=dict(guard="UNIFEX_VERIF", enable="harness sources and the library .cpp files are compiled from /repo's working tree with -DUNIFEX_VERIF=1 (tools/vlib.py build())",
-                      baseline_off_cmd="cmake --build /repo/_build && ctest --test-dir /repo/_build -j8 --timeout 900",
+                      baseline_off_cmd="cmake --build /repo/_build -- -k 0 ; ctest --test-dir /repo/_build -j8 --timeout 900",
                       source_commits=hook_commits, add_only=True),
            engines=meta["engines"], checks=checks, notes=meta["notes"], not_applicable=na)
 json.dump(man, open(os.path.join(V, "MANIFEST.json"), "w"), indent=1)
